@@ -80,6 +80,10 @@ def f(x: {ann}):
 def fc(x: {ann}, *args: {ann}, **kw: {ann}):
     STATE['body'] += 1
     return x
+@utype.parse(options=Options(collect_errors=True))
+def fp(x: {ann}, y: int = 0):
+    STATE['body'] += 1
+    return x
 @utype.parse
 def fr(x) -> {ann}:
     STATE['body'] += 1
@@ -199,6 +203,8 @@ def main():
                     ("field-from", lambda: ns["C"].__from__(materialise(v)), False),
                     ("param", lambda: ns["f"](materialise(v)), True),
                     ("param-collect", lambda: ns["fc"](materialise(v), materialise(v), k=materialise(v)), True),
+                    ("param-collect-positional", lambda: ns["fp"](materialise(v), 1), True),
+                    ("param-collect-positional-bad", lambda: ns["fp"](materialise(v), "bad"), True),
                     ("type", lambda: ns["T"](materialise(v)), False),
                     ("type-collect", lambda: ns["T"](materialise(v), context=ns["Options"](collect_errors=True).make_context()), False)]
             from utype.parser.rule import LogicalType
